@@ -70,3 +70,20 @@ Theorem C34_failed_step_unchanged :
   forall s o ops, step s o = None -> run s (o :: ops) = observe false s :: run s ops.
 Proof. exact failed_step_unchanged. Qed.
 Print Assumptions C34_failed_step_unchanged.
+
+Theorem C34_pop_takes_latest :
+  forall s e rest w', s_stashes s = e :: rest -> do_pop (cur s) e = Some w' ->
+  step s Pop = Some (set_stashes (set_cur s w') rest).
+Proof. exact pop_takes_latest. Qed.
+Print Assumptions C34_pop_takes_latest.
+
+Theorem C34_stash_pop_conflict :
+  forall s e rest, s_stashes s = e :: rest -> merge_root (snd e) (w_working (cur s)) (fst e) = None ->
+  step s Pop = None.
+Proof. exact stash_pop_conflict. Qed.
+Print Assumptions C34_stash_pop_conflict.
+
+Theorem C34_stash_pushes_on_top :
+  forall s s', step s Stash = Some s' -> exists e, s_stashes s' = e :: s_stashes s /\ e = (w_working (cur s), w_head (cur s)).
+Proof. exact stash_pushes_on_top. Qed.
+Print Assumptions C34_stash_pushes_on_top.
